@@ -172,13 +172,14 @@ theorem close_while_suspended_writes_nothing (m : Nat) (hm : m < 512) (kittyFlag
 
 /-- The skeleton of the input goroutine was fully recognised: the deferred handler is the first
     statement, it is `if err := recover(); err != nil { vx.Close(); panic(err) }`, the select loop has
-    the parser arm, the window-size arm and the kill-signal arm `vx.Close(); return`. -/
+    the parser arm (which also tells whether the parser's channel has been closed: round 3, F13
+    repaired), the window-size arm and the kill-signal arm `vx.Close(); return`. -/
 theorem facts_inputLoop :
     Gen.Modes.inputLoopRecover = [.call .tt "Close", .other .tt "panic(err)"] ∧
     Gen.Modes.inputLoopSignalArm = [.call .tt "Close", .other .tt "return"] ∧
     Gen.Modes.inputLoopRecoverGuard = "err := recover(); err != nil" ∧
     Gen.Modes.inputLoopDeferFirst = true ∧
-    Gen.Modes.inputLoopArms = ["seq := <-parser.Next()", "<-vx.chSigWinSz", "<-vx.chSigKill"] := by
+    Gen.Modes.inputLoopArms = ["seq, ok := <-parser.Next()", "<-vx.chSigWinSz", "<-vx.chSigKill"] := by
   decide
 
 /-- **Signal path.** What the kill-signal arm of the input goroutine writes, from every state and
